@@ -126,4 +126,4 @@ func CfgString(c originium.Config) string {
 		c.DataBlockByteThreshold, c.L0TargetNum, c.LevelRatio, c.SkipListMaxLevel, c.SkipListP)
 }
 
-var DelayProfiles = []string{"none", "jitter", "slow-flusher", "slow-commit", "slow-rotate"}
+var DelayProfiles = []string{"none", "jitter", "slow-flusher", "slow-commit", "slow-rotate", "slow-begin"}
